@@ -14,7 +14,7 @@ import (
 func init() {
 	register(&Prop{
 		ID:          "C05",
-		Explanation: "Decides the wiring that binds token response to authorization request. Nonce: on every saving path of the callback csrf.SetSessionNonce(session) on the loaded CSRF cookie precedes provider.ValidateSession(session)==true; OIDCProvider.ValidateSession returns true only with Verifier.Verify(s.IDToken) ok and (SkipNonce or checkNonce(s)==nil); checkNonce returns nil only after s.CheckNonce(value extracted from the \"nonce\" claim of s.IDToken)==true; SessionState.CheckNonce and encryption.CheckNonce compare the hash of the session nonce with hmac.Equal; every ValidateSession override of an OIDC-embedding provider delegates to it. PKCE: with a challenge method configured the verifier given to NewCSRF is the fresh result of GenerateCodeVerifierString(n), 32<=n<=96, unpadded URL-safe base64 of n crypto/rand bytes; its only other use is GenerateCodeChallenge(method, verifier) whose result is the code_challenge parameter; the verifier redeemed is GetCodeVerifier() of the loaded CSRF cookie, handed unchanged to provider.Redeem, and every Redeem implementation sends it as code_verifier or delegates; the login URL receives only HashOAuthState()/HashOIDCNonce(); the raw nonce/verifier fields have a closed reader set; the PKCE method in force (ProviderData.CodeChallengeMethod) is written only from the operator's option. Added during the build: the challenge method sent and the one used to derive the challenge come from the same configuration value (R7). Round 3: the legacy conversion lets force-code-challenge-method alone select the method (R8); a Redeem implementation's verifier flows only into the code_verifier parameter and the parameter set carrying it is used only through url.Values methods (R9). Round 4: the structured configuration's providers reach Options.Providers as written and the legacy skip-nonce flag maps to the skip-nonce option (R10).",
+		Explanation: "Decides the wiring that binds token response to authorization request. Nonce: on every saving path of the callback csrf.SetSessionNonce(session) on the loaded CSRF cookie precedes provider.ValidateSession(session)==true; OIDCProvider.ValidateSession returns true only with Verifier.Verify(s.IDToken) ok and (SkipNonce or checkNonce(s)==nil); checkNonce returns nil only after s.CheckNonce(value extracted from the \"nonce\" claim of s.IDToken)==true; SessionState.CheckNonce and encryption.CheckNonce compare the hash of the session nonce with hmac.Equal; every ValidateSession override of an OIDC-embedding provider delegates to it. PKCE: with a challenge method configured the verifier given to NewCSRF is the fresh result of GenerateCodeVerifierString(n), 32<=n<=96, unpadded URL-safe base64 of n crypto/rand bytes; its only other use is GenerateCodeChallenge(method, verifier) whose result is the code_challenge parameter; the verifier redeemed is GetCodeVerifier() of the loaded CSRF cookie, handed unchanged to provider.Redeem, and every Redeem implementation sends it as code_verifier or delegates; the login URL receives only HashOAuthState()/HashOIDCNonce(); the raw nonce/verifier fields have a closed reader set; the PKCE method in force (ProviderData.CodeChallengeMethod) is written only from the operator's option. Added during the build: the challenge method sent and the one used to derive the challenge come from the same configuration value (R7). Round 3: the legacy conversion lets force-code-challenge-method alone select the method (R8); a Redeem implementation's verifier flows only into the code_verifier parameter and the parameter set carrying it is used only through url.Values methods (R9). Round 4: the structured configuration's providers reach Options.Providers as written and the legacy skip-nonce flag maps to the skip-nonce option (R10). Round 5: in every function that adds code_verifier to the token request, each error-free return on which the verifier is not known to be empty has passed the add (under R9; shared with C03.R8).",
 		NotDecided:  "identity-provider behaviour; 'never repeated' beyond fresh-per-call crypto/rand (entropy trusted); msgpack reflection reads of the csrf fields (serialisation into the encrypted cookie) are not modelled as reads.",
 		Run:         runC05,
 	})
@@ -747,6 +747,19 @@ func runC05R9(c *Ctx, rule string) {
 		return strings.HasSuffix(sc.Signature.Recv().Type().String(), "net/url.Values")
 	}
 	n := 0
+	type sinkSite struct {
+		fn *ssa.Function
+		pa *ssa.Parameter
+	}
+	var sinks []sinkSite
+	addSink := func(fn *ssa.Function, pa *ssa.Parameter) {
+		for _, s := range sinks {
+			if s.fn == fn && s.pa == pa {
+				return
+			}
+		}
+		sinks = append(sinks, sinkSite{fn, pa})
+	}
 	var checkParam func(fn *ssa.Function, pa *ssa.Parameter, depth int)
 	seen := map[*ssa.Parameter]bool{}
 	checkParam = func(fn *ssa.Function, pa *ssa.Parameter, depth int) {
@@ -787,6 +800,7 @@ func runC05R9(c *Ctx, rule string) {
 					case isValuesMethod(cc) && (cc.StaticCallee().Name() == "Add" || cc.StaticCallee().Name() == "Set"):
 						if k, ok := ConstString(cc.Args[1]); ok && k == "code_verifier" {
 							c.ok(rule, key, x, "params."+cc.StaticCallee().Name()+"(\"code_verifier\", verifier)")
+							addSink(fn, pa)
 							// the Values object: only url.Values methods may touch it
 							vals := cc.Args[0]
 							for _, r2 := range *vals.Referrers() {
@@ -805,6 +819,7 @@ func runC05R9(c *Ctx, rule string) {
 					case cc.StaticCallee() != nil && cc.StaticCallee().String() == "golang.org/x/oauth2.SetAuthURLParam":
 						if k, ok := ConstString(cc.Args[0]); ok && k == "code_verifier" {
 							c.ok(rule, key, x, "oauth2.SetAuthURLParam(\"code_verifier\", verifier)")
+							addSink(fn, pa)
 						} else {
 							c.R.Bad(rule, key, c.pos(x), "the PKCE verifier is sent under a key other than code_verifier", nil, nil)
 						}
@@ -833,6 +848,66 @@ func runC05R9(c *Ctx, rule string) {
 	}
 	if n == 0 {
 		c.R.Unknown(rule, "verifier-use|none", "-", "no Redeem implementation uses its verifier")
+	}
+	// the only reason not to send the verifier is that there is none: in each function that adds it to the token request,
+	// every error-free return on which the verifier is not known to be empty has passed the add
+	isSinkCall := func(cc *ssa.CallCommon) bool {
+		sc := cc.StaticCallee()
+		if sc == nil {
+			return false
+		}
+		if isValuesMethod(cc) && (sc.Name() == "Add" || sc.Name() == "Set") {
+			k, ok := ConstString(cc.Args[1])
+			return ok && k == "code_verifier"
+		}
+		if sc.String() == "golang.org/x/oauth2.SetAuthURLParam" {
+			k, ok := ConstString(cc.Args[0])
+			return ok && k == "code_verifier"
+		}
+		return false
+	}
+	for _, sk := range sinks {
+		sk := sk
+		key := "verifier-always-sent|" + fnKey(sk.fn)
+		bad, paths := false, 0
+		c.WalkShallow(rule, sk.fn, func(p *walk.Path) {
+			if _, ok := p.Exit.(*ssa.Return); !ok || bad {
+				return
+			}
+			if ei := errResultIndex(sk.fn.Signature); ei >= 0 {
+				if ev, ok := p.ReturnDV(ei); ok && !DefinitelyNil(p, ev, p.End()) {
+					return
+				}
+			}
+			// verifier known empty on this path?
+			for _, a := range p.Atoms(p.End()) {
+				b, ok := a.DV.V.(*ssa.BinOp)
+				if !ok || a.IsNil || (b.Op != token.EQL && b.Op != token.NEQ) {
+					continue
+				}
+				x, y := p.Resolve(p.Op(b.X, a.DV)), p.Resolve(p.Op(b.Y, a.DV))
+				if s, isC := ConstString(x.V); isC && s == "" {
+					x, y = y, x
+				} else if s, isC := ConstString(y.V); !isC || s != "" {
+					continue
+				}
+				_ = y
+				if x.V == ssa.Value(sk.pa) && a.Val { // equality atoms are kept in == form whatever the operator
+					return // no verifier in this login: nothing to send
+				}
+			}
+			paths++
+			for _, cl := range p.Calls() {
+				if isSinkCall(cl.C) {
+					return
+				}
+			}
+			bad = true
+			c.bad(rule, key, p.Exit, "the token request is prepared without code_verifier on a path where this login has a verifier (the condition is something other than the verifier being empty): the challenge sent at the start is never answered with its verifier", p, p.End())
+		})
+		if !bad {
+			c.R.OK(rule, key, c.P.Pos(sk.fn.Pos()), sprintf("%d error-free path(s) with a verifier, all add it to the token request", paths))
+		}
 	}
 }
 
